@@ -141,7 +141,9 @@ func runC15(t *testing.T, rc *core.RunCtx) {
 			mu.Unlock()
 			s.Probe("kill-requested")
 			if w != nil {
-				w.Stop(true)
+				// (the machine is disposed at the end of the run: a machine that
+				// is disposed while an rpc handshake reads it freezes fake time)
+				w.Stop(false)
 			}
 			return nil
 		}
@@ -244,7 +246,7 @@ func runC15(t *testing.T, rc *core.RunCtx) {
 				case "kill":
 					if w != nil {
 						s.Logf("event: worker %s stops", w.LocalAddr)
-						w.Stop(true)
+						w.Stop(false)
 					}
 				case "err":
 					if w != nil {
@@ -281,7 +283,13 @@ func runC15(t *testing.T, rc *core.RunCtx) {
 			sort.Strings(addrs)
 			s.Fail("C15/no-kill", "worker %s accumulated %d errors (WorkerErrKill %d) and no KillingWorker was requested for it", addrs[0], pendingKill[addrs[0]], errKill)
 		}
+		// teardown: no traffic first, then the machines
+		for _, id := range nw.Live() {
+			nw.Cut(id)
+		}
+		time.Sleep(10 * time.Second)
 		sup.Stop()
+		time.Sleep(5 * time.Second)
 		mu.Lock()
 		for _, w := range workers {
 			w.Stop(true)
